@@ -3,6 +3,7 @@ use kanata_keyberon::layout::{Event, QueuedIter, WaitingAction};
 use crate::keys::OsCode;
 
 use super::alloc::Allocations;
+use super::NORMAL_KEY_ROW;
 
 /// Returns a closure that can be used in `HoldTapConfig::Custom`, which will return early with a
 /// Tap action in the case that any of `keys` are pressed. Otherwise it behaves as
@@ -18,7 +19,9 @@ pub(crate) fn custom_tap_hold_release(
                 if q.event().is_press() {
                     let (i, j) = q.event().coord();
                     // If any key matches the input, do a tap right away.
-                    if keys.iter().copied().map(u16::from).any(|j2| j2 == j) {
+                    // A virtual key with the same index is in another row and is not that key.
+                    if i == NORMAL_KEY_ROW && keys.iter().copied().map(u16::from).any(|j2| j2 == j)
+                    {
                         return (Some(WaitingAction::Tap), false);
                     }
                     // Otherwise do the PermissiveHold algorithm.
@@ -42,9 +45,11 @@ pub(crate) fn custom_tap_hold_except(
         move |mut queued: QueuedIter| -> (Option<WaitingAction>, bool) {
             for q in queued.by_ref() {
                 if q.event().is_press() {
-                    let (_i, j) = q.event().coord();
+                    let (i, j) = q.event().coord();
                     // If any key matches the input, do a tap.
-                    if keys.iter().copied().map(u16::from).any(|j2| j2 == j) {
+                    // A virtual key with the same index is in another row and is not that key.
+                    if i == NORMAL_KEY_ROW && keys.iter().copied().map(u16::from).any(|j2| j2 == j)
+                    {
                         return (Some(WaitingAction::Tap), false);
                     }
                     // Otherwise continue with default behavior
